@@ -24,6 +24,9 @@ func lockWait(site string) {
 	}
 }
 
+// ResetRun is called by the worker before every run.
+func ResetRun() { dns.VerifsimResetPools() }
+
 func init() {
 	dns.VerifsimYield = yield
 	dns.VerifsimLockWait = lockWait
